@@ -148,7 +148,7 @@ def run_scenario(task):
             cache.clear()
         del core.DEFS[:]
         prop = load_prop(pid)
-        scn = [s for s in prop.scenarios(tier) if s.name == sname][0]
+        scn = [s for s in prop.scenarios(tier) + (prop.scenarios('quick') if tier != 'quick' else []) if s.name == sname][0]
         res['twin'] = scn.twin
         res['bounds'] = scn.bounds
         rnd = random.Random((seed, sname).__repr__())
@@ -555,7 +555,21 @@ def _worker(inq, outq):
         if t is None:
             return
         outq.put(('start', os.getpid(), t))
-        outq.put(('done', os.getpid(), run_scenario(t)))
+        extra = len(t) > 6 and t[6] is not None
+        if extra:
+            left = t[6] - time.time()
+            if left < 20:
+                r = _blank_result(t, None)
+                r['skipped_for_time'] = True
+                outq.put(('done', os.getpid(), r))
+                continue
+            t = t[:4] + (min(t[4], left),) + t[5:]
+        r = run_scenario(t)
+        if extra and r.get('error') and 'budget exhausted' in r['error'] and not r['violations'] and not r['inconclusive']:
+            # a thorough-only scenario cut by the wall-clock limit of the tier: reported as partial, not as a failure
+            r['partial'] = r['error']
+            r['error'] = None
+        outq.put(('done', os.getpid(), r))
 
 
 def _run_pool(tasks, n):
@@ -619,17 +633,29 @@ def main(argv=None):
     t0 = time.time()
     prop = load_prop(pid)
     scns = prop.scenarios(a.tier)
+    if a.tier == 'thorough':
+        have = {s.name for s in scns}
+        scns = scns + [s for s in prop.scenarios('quick') if s.name not in have]
     if a.only:
         scns = [s for s in scns if fnmatch.fnmatch(s.name, a.only)]
-    order = sorted(scns, key=lambda s: -s.weight)
     if a.budget is None:
-        a.budget = float(os.environ.get('SX_BUDGET_S', '240' if a.tier == 'quick' else '2400'))
+        a.budget = float(os.environ.get('SX_BUDGET_S', '240' if a.tier == 'quick' else '900'))
+    deadline = None
+    base = set()
+    if a.tier == 'thorough' and not a.only:
+        # the thorough tier = every quick scenario (always run to completion) + the deeper scenarios, which are run in
+        # ascending order of estimated cost until the wall-clock limit of the tier; what was skipped is reported
+        deadline = t0 + float(os.environ.get('SX_THOROUGH_WALL_S', '1500'))
+        base = {s.name for s in prop.scenarios('quick')}
+    first = sorted([s for s in scns if s.name in base or deadline is None], key=lambda s: -s.weight)
+    extras = sorted([s for s in scns if not (s.name in base or deadline is None)], key=lambda s: s.weight)
     tasks = []
-    for s in order:
+    for s in first + extras:
+        dl = deadline if (deadline is not None and s.name not in base) else None
         if s.shards > 1 and not s.twin:
-            tasks.extend((pid, s.name, a.tier, seed, a.budget, (j, s.shards)) for j in range(s.shards))
+            tasks.extend((pid, s.name, a.tier, seed, a.budget, (j, s.shards), dl) for j in range(s.shards))
         else:
-            tasks.append((pid, s.name, a.tier, seed, a.budget))
+            tasks.append((pid, s.name, a.tier, seed, a.budget, None, dl))
     results = []
     if a.serial or len(tasks) == 1:
         for t in tasks:
@@ -660,6 +686,8 @@ def _merge_shards(results):
             m[f] = m[f] + r[f]
         m['functions'] = sorted(set(m['functions']) | set(r['functions']))
         m['complete'] = m['complete'] and r['complete']
+        m['skipped_for_time'] = m.get('skipped_for_time', False) or r.get('skipped_for_time', False)
+        m['partial'] = m.get('partial') or r.get('partial')
         m['error'] = m['error'] or r['error']
         m['wall'] = max(m['wall'], r['wall'])
         for lk, lv in r['labels'].items():
@@ -683,7 +711,7 @@ def finish(pid, a, seed, prop, results, wall):
             if not r['twin_ok']:
                 errors.append('%s: reachability twin did not reach its end (vacuous harness)' % r['scenario'])
             continue
-        if r['paths'] == 0 and not r['error']:
+        if r['paths'] == 0 and not r['error'] and not r.get('skipped_for_time') and not r.get('partial'):
             errors.append('%s: no feasible path (vacuous)' % r['scenario'])
         for v in r['violations']:
             violations.append(dict(v, scenario=r['scenario']))
@@ -744,13 +772,15 @@ def finish(pid, a, seed, prop, results, wall):
         obligation_labels=_merge_labels(real),
         scenarios=[dict(name=r['scenario'], paths=r['paths'], nested_paths=r.get('sub_paths', 0), obligations=r['obligations'], wall_s=r['wall'],
                         complete=r['complete'], bounds=r['bounds'], twin=r['twin']) for r in results],
+        scenarios_skipped_at_the_wall_clock_limit=[r['scenario'] for r in results if r.get('skipped_for_time')],
+        scenarios_cut_by_the_wall_clock_limit=[r['scenario'] for r in results if r.get('partial')],
         reachability_twins=dict(total=sum(1 for r in results if r['twin']),
                                 violated_as_required=sum(1 for r in results if r['twin'] and r['twin_ok'])),
         bounds=getattr(prop, 'BOUNDS', {}).get(a.tier, {}),
         outside_the_claim=getattr(prop, 'OUTSIDE', []),
         engine='sx: symbolic execution of the real mabwiser modules (imported from %s) on numpy object arrays '
                'with z3 %s; one fresh solver per query' % (os.environ.get('MABWISER_REPO', '/repo'), _z3v()),
-        exhaustive=all(r['complete'] for r in results) and not errors,
+        exhaustive=all(r['complete'] for r in results) and not errors and not any(r.get('skipped_for_time') for r in results),
         explanation='every path of every scenario within the stated bounds was executed symbolically; each '
                     'obligation was decided by z3 (unsat = holds for all values on that path)',
     )
